@@ -62,6 +62,33 @@ def run(index, tier="quick", seed=0) -> Result:
                     f"on the fly: that shape measures from its own centroid, which is not the centre of this shape for irregular cores")
         if not deleg:
             res.ok("FRAME-1", label)
+        # ---------------- MEAN-1: the distance is measured from the centre (centroid), never from the average of the vertices
+        vm = sorted({d for (v_, _s, _n) in r["returns"] for d in v_.deps if d[0] == "vertex-mean"})
+
+        def _rowmean(tag):
+            # the average over the vertex axis of a coordinate array (np.mean(v, axis=0)): a point.  The mean of one column
+            # of the aligned vertices (the constant height of the polygon's plane in Polygon.centroid) is not a reference point.
+            for e in r["events"]:
+                if e.type == "reduce" and f"{e.fn}@{getattr(e.node, 'lineno', 0)}" == tag:
+                    ax = e.f.get("axis")
+                    return ax is not None and ax.has_const() and ax.const == 0
+            return False
+        vm = [d for d in vm if _rowmean(d[1])]
+        if vm:
+            site = [e for e in r["events"] if e.type == "reduce" and f"{e.fn}@{getattr(e.node, 'lineno', 0)}" == vm[0][1]]
+            res.bad("MEAN-1", label + ":vertex-mean", site[0].where() if site else f"{fn.file}:{fn.lineno}",
+                    f"{label} depends on an unweighted average of vertex coordinates (`{site[0].src()[:60] if site else vm[0][1]}`): the vertex mean is "
+                    "the centroid only for triangles, regular and centrally symmetric polygons, so the distances are measured from the wrong point")
+        else:
+            res.ok("MEAN-1", label, nontrivial=False)
+        # ---------------- DTYPE-1: integer angles (np.arange(4), [0, 1, 2]) are documented input; the result buffer is floating
+        ints = [e for e in r["events"] if e.type == "int-inplace"]
+        if ints:
+            e = ints[0]
+            res.bad("DTYPE-1", f"{label}:{e.op}:buffer", e.where(), f"{label}: `{e.src()[:60]}` writes floating-point distances into a buffer whose dtype is "
+                    "the caller's (allocated like the raw angles): integer angles give silently truncated distances")
+        else:
+            res.ok("DTYPE-1", label, nontrivial=False)
         # ---------------- DEG
         st, txt = check_degree(r["result"], 1)
         if st == "ok":
